@@ -226,6 +226,30 @@ def case_hash(case):
     return hashlib.sha1(canon(case).encode()).hexdigest()[:10]
 
 
+_EVAL_MOD = None
+
+
+def _eval_one(c):
+    mod = _EVAL_MOD
+    try:
+        got = mod.impl(c)
+    except Exception as e:
+        got = "E:harness:" + type(e).__name__ + ":" + str(e)[:200]
+    return got, mod.oracle(c)
+
+
+def _eval_all(mod, cases):
+    """(impl(c), oracle(c)) for every case; forked worker pool when the module sets PARALLEL"""
+    global _EVAL_MOD
+    _EVAL_MOD = mod
+    n = int(getattr(mod, "PARALLEL", 0) or 0)
+    if n <= 1 or len(cases) < 200:
+        return [_eval_one(c) for c in cases]
+    import multiprocessing as mp
+    with mp.get_context("fork").Pool(min(n, os.cpu_count() or 1)) as pool:
+        return pool.map(_eval_one, cases, chunksize=max(1, len(cases) // (n * 8)))
+
+
 class Machinery(Exception):
     pass
 
@@ -283,17 +307,16 @@ def run_check(mod, tier, seed, replay=None):
         if lines:
             for i, r in zip(idx, driver_run(lines)):
                 replies[i] = r
+        results = _eval_all(mod, cases)
         for i, c in enumerate(cases):
             stats["evaluations"] += 1
             k = c.get("op", "?")
             stats["kinds"][k] = stats["kinds"].get(k, 0) + 1
-            try:
-                got = mod.impl(c)
-            except Exception as e:
-                got = "E:harness:" + type(e).__name__ + ":" + str(e)[:200]
-                stats["impl_errors"][type(e).__name__] = stats["impl_errors"].get(type(e).__name__, 0) + 1
-            exp = mod.oracle(c)
-            if exp is SKIP:
+            got, exp = results[i]
+            if isinstance(got, str) and got.startswith("E:harness:"):
+                n = got.split(":")[2]
+                stats["impl_errors"][n] = stats["impl_errors"].get(n, 0) + 1
+            if isinstance(exp, Skip):
                 stats["skipped"] += 1
                 continue
             if mod.nontrivial(c):
